@@ -43,6 +43,13 @@ def cases(draw):
         ops = ops + ["solve"]
         if draw(st.integers(0, 4)) == 0:
             ops = ops + ["solve"]
+    if ops and draw(st.integers(0, 2)) == 0:
+        # a local refinement in the middle of the run (Solver.DoLocalRefinement, or a refining Solve followed by more
+        # global iterations): the reported optimum must not get worse when the search goes on
+        ops = list(ops)
+        ops.insert(draw(st.integers(1, len(ops))), "refine")
+        if draw(st.booleans()):
+            ops = ops + [draw(st.integers(1, 30))]
     case = {"recipe": recipe, "params": params, "ops": ops, "refine": draw(st.booleans())}
     # with or without a listener attached (a listener makes the solver refresh its Solution at every notification)
     case["listener"] = draw(st.sampled_from([True, True, False]))
@@ -81,6 +88,12 @@ def body(case):
             if op == "solve":
                 sol = run.solve()
                 snap("returned by Solve", sol)
+            elif op == "refine":
+                if not prob.log:
+                    continue
+                import contextlib
+                with contextlib.redirect_stdout(run.out):
+                    run.solver.DoLocalRefinement(10)
             else:
                 run.step(op)
         except Exception as e:
@@ -112,6 +125,7 @@ def body(case):
     vals = [v for _, _, v in prob.log]
     equal_min = sum(1 for v in vals if v == min(vals))
     classes = ["N=%d" % run.n, "refine=%s" % case["refine"], "listener=%s" % listener,
+               "refined-mid-run" if "refine" in case["ops"] else "no-mid-run-refinement",
                "kept-solution" if kept is not None else "no-kept-solution", "decoy" if decoy is not None else "no-decoy", "observations=%d+" % min(len(obs), 6) if len(obs) >= 6
                else "observations<6"]
     if equal_min > 1:
